@@ -50,6 +50,9 @@ type nameSpace struct {
 	// steps counts the template nodes visited by the analysis started by the current
 	// Execute call.
 	steps int
+	// cost holds, per analysed (mangled) template name, the number of nodes that its
+	// analysis visited.
+	cost map[string]int
 }
 
 // Templates returns a slice of the templates associated with t, including t
